@@ -124,6 +124,11 @@ structure AssetDef where
   label : Bytes
   /-- cw20 `token_info.decimals` (unused for natives) -/
   dec : Nat
+  /-- a cw20 address written in another letter case (`CONTRACT0` for `contract0`): `addr_canonicalize`
+      lower-cases, so `raw` — and with it every pool / incentive key — is that of the real token, while
+      `ref` (the address *string*) is its own; no contract answers at this spelling and `addr_validate`
+      refuses it, so every label / decimals query on it fails -/
+  dead : Bool := false
 deriving Repr, DecidableEq
 
 structure Cfg where
@@ -136,7 +141,9 @@ def assetOf (cfg : Cfg) (i : Nat) : Res AssetDef :=
   | none => .err
 
 def rawOf (cfg : Cfg) (i : Nat) : Res Bytes := do let a ← assetOf cfg i; pure a.raw
-def labelOf (cfg : Cfg) (i : Nat) : Res Bytes := do let a ← assetOf cfg i; pure a.label
+def labelOf (cfg : Cfg) (i : Nat) : Res Bytes := do
+  let a ← assetOf cfg i
+  if a.dead then .err else pure a.label
 
 /-- key of a list of universe assets -/
 def keyOf (cfg : Cfg) (idx : List Nat) : Res Bytes := do
@@ -269,6 +276,8 @@ def VaultReg.create (cfg : Cfg) (r : VaultReg) (i : Nat) : Res VaultReg := do
   let a ← assetOf cfg i
   -- ExistingVault
   guardErr (regLookup a.ref r.reg).isNone
+  -- the label of the instantiate message: `get_label` (token-info query after `addr_validate`)
+  guardErr (!a.dead)
   -- TMP_VAULT_ASSET.save
   let r1 : VaultReg := { r with tmp := some (a.ref, i) }
   -- vault instantiate: LP token symbol validation
@@ -299,6 +308,8 @@ def IncReg.create (cfg : Cfg) (r : IncReg) (i : Nat) : Res IncReg := do
   let a ← assetOf cfg i
   -- DuplicateIncentiveContract
   guardErr (regLookup a.raw r.reg).isNone
+  -- the label of the instantiate message: `get_label` (token-info query after `addr_validate`)
+  guardErr (!a.dead)
   let serial := r.kids.length
   let r1 : IncReg := { r with kids := r.kids ++ [i] }
   -- reply: the key is computed from the lp asset the child sends back
@@ -337,6 +348,14 @@ def St.init : St :=
   { decs := [], pairs := ⟨[], [], none⟩, trios := ⟨[], [], none⟩, vaults := ⟨[], [], none⟩,
     incs := ⟨[], []⟩, routes := [] }
 
+/-- contract instances in the chain per child code: pair, trio, vault, incentive, cw20. Every pair / trio /
+    vault instantiates its own cw20 LP token (`token_factory_lp = false`); the cw20 tokens of the universe
+    exist from the start. Children are never destroyed: removing an entry leaves its child in the chain. -/
+def childCounts (cfg : Cfg) (s : St) : List Nat :=
+  [s.pairs.kids.length, s.trios.kids.length, s.vaults.kids.length, s.incs.kids.length,
+   (cfg.assets.filter (fun a => !a.native && !a.dead)).length + s.pairs.kids.length + s.trios.kids.length +
+     s.vaults.kids.length]
+
 /-- `AssetInfo::query_decimals(factory)` -/
 def decsOf (cfg : Cfg) (s : St) (i : Nat) : Res Nat := do
   let a ← assetOf cfg i
@@ -344,6 +363,7 @@ def decsOf (cfg : Cfg) (s : St) (i : Nat) : Res Nat := do
     match regLookup a.ref s.decs with
     | some d => pure d
     | none => .err
+  else if a.dead then .err
   else pure a.dec
 
 /-- pair `instantiate`: StableSwap amp within `[MIN_AMP, MAX_AMP]` -/
